@@ -12,30 +12,33 @@ namespace SasLexer
 open Lexer
 
 /-- channel table and payload-kind table for one token -/
-def tokInfoOK (t : TokInfo) : Bool := chanOK t.chan t.ty && payKindOK t.ty t.payload
+def tokInfoOK (sep : Bool) (t : TokInfo) : Bool :=
+  chanOK t.chan t.ty && payKindOK t.ty t.payload && (t.ty != .MacroSep || sep)
 
 /-- the payload register holds nothing or a string payload -/
 def PReg (L : Lexer) : Prop := L.payReg = .none ∨ ∃ a b, L.payReg = .str a b
 
-structure ChInv (L : Lexer) : Prop where
-  toks : ∀ t ∈ L.toksR, tokInfoOK t = true
+structure ChInv (sep : Bool) (L : Lexer) : Prop where
+  toks : ∀ t ∈ L.toksR, tokInfoOK sep t = true
   modes : ∀ m ∈ L.modesR, modeOK m
   preg : PReg L
 
-theorem tokOK_resolve {L : Lexer} (hr : PReg L) {ch : Channel} {ty : TokenType} {p : PaySpec} (h : tokOK ch ty p = true) :
-    chanOK ch ty = true ∧ payKindOK ty (p.resolve L) = true := by
+theorem tokOK_resolve {L : Lexer} (hr : PReg L) {sep : Bool} {ch : Channel} {ty : TokenType} {p : PaySpec}
+    (h : tokOK sep ch ty p = true) :
+    chanOK ch ty = true ∧ payKindOK ty (p.resolve L) = true ∧ (ty != .MacroSep || sep) = true := by
   simp only [tokOK, Bool.and_eq_true] at h
-  refine ⟨h.1, ?_⟩
+  refine ⟨h.1.1, ?_, h.2⟩
   cases p with
-  | none => exact h.2
-  | int v => exact h.2
-  | float b => exact h.2
+  | none => exact h.1.2
+  | int v => exact h.1.2
+  | float b => exact h.1.2
   | reg =>
-    simp only [paySpecOK, Bool.and_eq_true] at h
+    have h2 := h.1.2
+    simp only [paySpecOK, Bool.and_eq_true] at h2
     simp only [PaySpec.resolve]
     rcases hr with hr | ⟨a, b, hr⟩ <;> rw [hr]
-    · exact h.2.2
-    · exact h.2.1
+    · exact h2.2
+    · exact h2.1
 
 section modesLemmas
 variable (cfg : Cfg) (L : Lexer)
@@ -68,12 +71,12 @@ variable (cfg : Cfg) (L : Lexer)
 @[simp] theorem rollback_payReg : L.rollback.payReg = L.payReg := by unfold Lexer.rollback; split <;> rfl
 end modesLemmas
 
-theorem ChInv.congr {L L' : Lexer} (h : ChInv L) (e1 : L'.toksR = L.toksR) (e2 : L'.modesR = L.modesR)
-    (e3 : L'.payReg = L.payReg := by rfl) : ChInv L' :=
+theorem ChInv.congr {sep : Bool} {L L' : Lexer} (h : ChInv sep L) (e1 : L'.toksR = L.toksR) (e2 : L'.modesR = L.modesR)
+    (e3 : L'.payReg = L.payReg := by rfl) : ChInv sep L' :=
   ⟨by rw [e1]; exact h.toks, by rw [e2]; exact h.modes, by unfold PReg; rw [e3]; exact h.preg⟩
 
-theorem ChInv.bufAddToken {cfg : Cfg} {L : Lexer} (h : ChInv L) (t : TokInfo) (ht : tokInfoOK t = true) :
-    ChInv (L.bufAddToken cfg t) := by
+theorem ChInv.bufAddToken {sep : Bool} {cfg : Cfg} {L : Lexer} (h : ChInv sep L) (t : TokInfo) (ht : tokInfoOK sep t = true) :
+    ChInv sep (L.bufAddToken cfg t) := by
   refine ⟨?_, h.modes, h.preg⟩
   intro x hx
   simp only [Lexer.bufAddToken, List.mem_cons] at hx
@@ -86,8 +89,8 @@ theorem sameKinds_pay {e n : TokenType} (h : sameKinds e n = true) (p : Payload)
   obtain ⟨⟨h1, h2⟩, h3⟩ := h
   cases p <;> simp [payKindOK, h1, h2, h3]
 
-theorem retype_ok {e n : TokenType} (hn : plainTy n = true) (hk : sameKinds e n = true) : ∀ {ts ts' : List TokInfo},
-    retypeLastDefaultAux e n ts = some ts' → (∀ t ∈ ts, tokInfoOK t = true) → ∀ t ∈ ts', tokInfoOK t = true
+theorem retype_ok {sep : Bool} {e n : TokenType} (hn : plainTy n = true) (hk : sameKinds e n = true) : ∀ {ts ts' : List TokInfo},
+    retypeLastDefaultAux e n ts = some ts' → (∀ t ∈ ts, tokInfoOK sep t = true) → ∀ t ∈ ts', tokInfoOK sep t = true
   | [], _, h, _ => by simp [retypeLastDefaultAux] at h
   | t :: ts, ts', h, hall => by
     unfold retypeLastDefaultAux at h
@@ -101,9 +104,9 @@ theorem retype_ok {e n : TokenType} (hn : plainTy n = true) (hk : sameKinds e n 
         rcases hx with rfl | hx
         · have h0 := hall t (List.mem_cons_self ..)
           simp only [tokInfoOK, Bool.and_eq_true] at h0 ⊢
-          simp only [plainTy, tokOK, Bool.and_eq_true] at hn
-          refine ⟨by rw [hc]; exact hn.1, ?_⟩
-          rw [sameKinds_pay hk, ← hty]; exact h0.2
+          simp only [plainTy, tokOK, Bool.and_eq_true, Bool.or_false] at hn
+          refine ⟨⟨by rw [hc]; exact hn.1.1, ?_⟩, by simp [hn.2]⟩
+          rw [sameKinds_pay hk, ← hty]; exact h0.1.2
         · exact hall x (List.mem_cons_of_mem _ hx)
       · cases h
     · cases hr : retypeLastDefaultAux e n ts with
@@ -117,7 +120,7 @@ theorem retype_ok {e n : TokenType} (hn : plainTy n = true) (hk : sameKinds e n 
         · exact retype_ok hn hk hr (fun y hy => hall y (List.mem_cons_of_mem _ hy)) x hx
 
 theorem insertSep_ok : ∀ {ts ts' : List TokInfo},
-    insertSepAux ts = some ts' → (∀ t ∈ ts, tokInfoOK t = true) → ∀ t ∈ ts', tokInfoOK t = true
+    insertSepAux ts = some ts' → (∀ t ∈ ts, tokInfoOK true t = true) → ∀ t ∈ ts', tokInfoOK true t = true
   | [], _, h, _ => by simp [insertSepAux] at h
   | t :: ts, ts', h, hall => by
     unfold insertSepAux at h
@@ -142,12 +145,14 @@ theorem insertSep_ok : ∀ {ts ts' : List TokInfo},
 theorem mem_truncR {α} {l : List α} {n : Nat} {x : α} (h : x ∈ truncR l n) : x ∈ l := List.mem_of_mem_drop h
 
 
-theorem step_ChInv (cfg : Cfg) (o : Op) (L : Lexer) (h : ChInv L) (ho : cOkCh o) :
-    ChInv (step cfg o L).2 ∧ respOK o (step cfg o L).1 := by
-  have emitOK : ∀ {ch ty p} (b s l : Nat), tokOK ch ty p = true → tokInfoOK ⟨ch, ty, b, s, l, p.resolve L⟩ = true := by
+theorem step_ChInv (cfg : Cfg) (o : Op) (L : Lexer) (h : ChInv cfg.macroSep L) (ho : cOkCh cfg.macroSep o) :
+    ChInv cfg.macroSep (step cfg o L).2 ∧ respOK o (step cfg o L).1 := by
+  have emitOK : ∀ {ch ty p} (b s l : Nat), tokOK cfg.macroSep ch ty p = true →
+      tokInfoOK cfg.macroSep ⟨ch, ty, b, s, l, p.resolve L⟩ = true := by
     intro ch ty p b s l hh
-    obtain ⟨h1, h2⟩ := tokOK_resolve h.preg hh
-    simp [tokInfoOK, h1, h2]
+    obtain ⟨h1, h2, h3⟩ := tokOK_resolve h.preg hh
+    simp only [tokInfoOK, h1, h2, Bool.and_self, Bool.true_and]
+    exact h3
   cases o <;> simp only [step, respOK, and_true]
   case rest | lastTok | lastDefaultTok | secondLastDefaultTok | hasCheckpoint | nesting | modeDepth | hasMark
       | litIsEmpty | loopProbe => exact h
@@ -176,9 +181,12 @@ theorem step_ChInv (cfg : Cfg) (o : Op) (L : Lexer) (h : ChInv L) (ho : cOkCh o)
     · exact h
   case insertSepBeforeLastDefault =>
     split
-    · split
+    · rename_i hsep
+      split
       · rename_i ts hts
-        exact ⟨insertSep_ok hts h.toks, h.modes, h.preg⟩
+        have h' := h.toks
+        rw [hsep] at h' ⊢
+        exact ⟨insertSep_ok hts h', h.modes, h.preg⟩
       · exact h
     · exact h
   case pushMode m =>
@@ -261,7 +269,7 @@ theorem step_ChInv (cfg : Cfg) (o : Op) (L : Lexer) (h : ChInv L) (ho : cOkCh o)
     · exact ⟨fun t ht => h.toks t (mem_truncR ht), fun m hm => h.modes m (mem_truncR hm), h.preg⟩
     · exact h.congr rfl rfl
   case emitEofAtCursor =>
-    exact ChInv.bufAddToken (h.congr (by simp) (by simp) (by simp)) _ (show tokInfoOK ⟨.DEFAULT, .EOF, _, _, _, .none⟩ = true by rfl)
+    exact ChInv.bufAddToken (h.congr (by simp) (by simp) (by simp)) _ (show tokInfoOK _ ⟨.DEFAULT, .EOF, _, _, _, .none⟩ = true by rfl)
   case payClear => exact ⟨h.toks, h.modes, Or.inl rfl⟩
   case litAddDecoded cs => exact ⟨h.toks, h.modes, Or.inr ⟨_, _, rfl⟩⟩
   case litResolve back =>
@@ -275,8 +283,8 @@ theorem step_ChInv (cfg : Cfg) (o : Op) (L : Lexer) (h : ChInv L) (ho : cOkCh o)
     | (refine h.congr ?_ ?_ ?_ <;> first | rfl | (simp [Lexer.pendingText, Lexer.checkpoint, Lexer.clearCheckpoint, Lexer.dassert, Lexer.panic, Lexer.addLine, Lexer.bufAddLine, Lexer.clearMark, Lexer.emitError, Lexer.emitErrorInfo, Lexer.pushPendingStat]; done))
     | (refine h.congr ?_ ?_ ?_ <;> (repeat' split) <;> first | rfl | (simp [Lexer.dassert, Lexer.emitErrorInfo, Lexer.addStringLiteral]; done))
 
-theorem ChanR_sound (cfg : Cfg) {α : Type} (p : Prog α) : ∀ (Q : α → Prop) (L : Lexer), ChanR p Q → ChInv L →
-    ChInv (Prog.run cfg p L).2 ∧ ∀ a, (Prog.run cfg p L).1 = some a → Q a := by
+theorem ChanR_sound (cfg : Cfg) {α : Type} (p : Prog α) : ∀ (Q : α → Prop) (L : Lexer), ChanR cfg.macroSep p Q → ChInv cfg.macroSep L →
+    ChInv cfg.macroSep (Prog.run cfg p L).2 ∧ ∀ a, (Prog.run cfg p L).1 = some a → Q a := by
   induction p with
   | ret a =>
     intro Q L h hi
